@@ -512,7 +512,13 @@ class Inliner:
             if nested is not fi.node and isinstance(nested, (ast.FunctionDef, ast.AsyncFunctionDef, ast.Lambda)):
                 inside |= {id(x) for x in ast.walk(nested)}
         if any(isinstance(x, ast.Name) and x.id in bound and id(x) not in inside for x in ast.walk(fi.node)):
-            return None
+            # the function uses such a name for something else: the comprehension's variables get names of their own
+            if any(isinstance(x, (ast.ListComp, ast.SetComp, ast.DictComp, ast.GeneratorExp, ast.Lambda)) for x in ast.walk(val) if x is not val):
+                return None
+            self.counter += 1
+            for x in ast.walk(val):
+                if isinstance(x, ast.Name) and x.id in bound:
+                    x.id = f"{x.id}__c{self.counter}"
         app: ast.stmt = ast.Expr(value=ast.Call(func=ast.Attribute(value=ast.Name(id=tgt_id, ctx=ast.Load()), attr="append", ctx=ast.Load()),
                                                args=[val.elt], keywords=[]))
         for c in reversed(g.ifs):
